@@ -1,4 +1,4 @@
-// C16 — ThreadSanitizer controls (built with the `tsan` variant only; thorough tier).
+// C16 — ThreadSanitizer harness (built with the `tsan` variant only; thorough tier / violation search).
 //
 // The detector itself has to be shown to work in this environment before "no report" means anything, and the phase table of
 // the translator claims that SuppressionList::getUnmatchedInlineSuppressions (which reads mSuppressions without taking
@@ -6,10 +6,25 @@
 //   race-unguarded-reader   worker A: addSuppression x N, worker B concurrently: getUnmatchedInlineSuppressions  -> TSan must report
 //   norace-guarded-reader   worker A: addSuppression x N, worker B concurrently: getSuppressions (locks)          -> no report
 //   norace-main-phase       worker A: addSuppression x N, joined; then the main thread: getUnmatchedInlineSuppressions -> no report
+//   methods                 lists the member functions `pair` knows:  S:<name> ... T:<name> ...
+//   pair <S|T> <a> <b>      two threads call member function <a> resp. <b> of ONE shared SuppressionList (S) / TimerResults (T)
+//                           in a loop.  P_impl for the member functions the phase table calls worker-phase: no TSan report.
 #include "common.h"
+#include "errorlogger.h"
+#include "errortypes.h"
+#include "filesettings.h"
+#include "settings.h"
+#include "standards.h"
 #include "suppressions.h"
+#include "timer.h"
+#include "tokenlist.h"
 
 #include <atomic>
+#include <chrono>
+#include <functional>
+#include <map>
+#include <set>
+#include <sstream>
 #include <thread>
 
 static const int N = 3000;
@@ -25,9 +40,123 @@ static void writer(SuppressionList &sl, std::atomic<bool> &done)
     done = true;
 }
 
+struct Env {
+    Settings settings;
+    TokenList tokens{settings, Standards::Language::C};
+    FileWithDetails file{"f.c", Standards::Language::C, 10};
+    Env() {
+        const char code[] = "void f ( ) { int x ; x = 1 ; }\nint g ;\n";
+        tokens.createTokensFromBuffer(code, sizeof(code) - 1);
+    }
+};
+
+using Fn = std::function<void (int)>;
+
+static std::map<std::string, Fn> suppressionMethods(SuppressionList &sl, Env &env)
+{
+    std::map<std::string, Fn> m;
+    m["addSuppression"] = [&](int i) {
+        // distinct parameters on every call so that the list keeps growing (a duplicate is rejected before the push_back)
+        SuppressionList::Suppression s("id" + std::to_string(i % 97), (i % 3) ? "f.c" : "", (i % 3) ? 100 + i : SuppressionList::Suppression::NO_LINE);
+        if ((i % 3) == 0)
+            s.symbolName = "sym" + std::to_string(i);
+        s.isInline = (i % 2) == 0;
+        (void)sl.addSuppression(std::move(s));
+    };
+    m["addSuppressionLine"] = [&](int i) {
+        (void)sl.addSuppressionLine("lid" + std::to_string(i % 53) + ":g.c:" + std::to_string(i % 5 + 1));
+    };
+    m["addSuppressions"] = [&](int i) {
+        std::list<SuppressionList::Suppression> l;
+        l.emplace_back("mid" + std::to_string(i % 31), "h.c", 2);
+        (void)sl.addSuppressions(std::move(l));
+    };
+    m["updateSuppressionState"] = [&](int i) {
+        SuppressionList::Suppression s("id" + std::to_string(i % 97), "f.c", (i % 7) + 1);
+        s.checked = true;
+        s.matched = (i % 2) == 0;
+        (void)sl.updateSuppressionState(s);
+    };
+    m["isSuppressed"] = [&](int i) {
+        SuppressionList::ErrorMessage e;
+        e.errorId = "id" + std::to_string(i % 97);
+        e.setFileName("f.c");
+        e.lineNumber = (i % 7) + 1;
+        e.certainty = Certainty::normal;
+        e.hash = 0;
+        (void)sl.isSuppressed(e, (i % 2) == 0);
+        const ::ErrorMessage msg({::ErrorMessage::FileLocation("f.c", (i % 7) + 1, 1)}, "f.c", Severity::error, "m", "id" + std::to_string(i % 97), Certainty::normal);
+        (void)sl.isSuppressed(msg, std::set<std::string>{});
+    };
+    m["isSuppressedExplicitly"] = [&](int i) {
+        SuppressionList::ErrorMessage e;
+        e.errorId = "id" + std::to_string(i % 97);
+        e.setFileName("f.c");
+        e.lineNumber = (i % 7) + 1;
+        e.certainty = Certainty::normal;
+        e.hash = 0;
+        (void)sl.isSuppressedExplicitly(e, true);
+    };
+    m["dump"] = [&](int) {
+        std::ostringstream os;
+        sl.dump(os);
+    };
+    m["getSuppressions"] = [&](int) {
+        (void)sl.getSuppressions().size();
+    };
+    m["getUnmatchedLocalSuppressions"] = [&](int) {
+        (void)sl.getUnmatchedLocalSuppressions(env.file).size();
+    };
+    m["getUnmatchedGlobalSuppressions"] = [&](int) {
+        (void)sl.getUnmatchedGlobalSuppressions().size();
+    };
+    m["getUnmatchedInlineSuppressions"] = [&](int) {
+        (void)sl.getUnmatchedInlineSuppressions().size();
+    };
+    m["markUnmatchedInlineSuppressionsAsChecked"] = [&](int) {
+        sl.markUnmatchedInlineSuppressionsAsChecked(env.tokens);
+    };
+    return m;
+}
+
+static std::map<std::string, Fn> timerMethods(TimerResults &tr)
+{
+    std::map<std::string, Fn> m;
+    m["addResults"] = [&](int i) {
+        tr.addResults("t" + std::to_string(i % 13), std::chrono::milliseconds(i % 5));
+    };
+    m["showResults"] = [&](int) {
+        tr.showResults(0, false);
+    };
+    m["reset"] = [&](int i) {
+        if (i % 50 == 0)
+            tr.reset();
+    };
+    m["getResults"] = [&](int) {
+        (void)tr.getResults().size();
+    };
+    return m;
+}
+
+static void runPair(const Fn &a, const Fn &b, int n)
+{
+    std::atomic<int> ready{0};
+    auto body = [&](const Fn &f) {
+        ++ready;
+        while (ready < 2) {}
+        for (int i = 0; i < n; ++i)
+            f(i);
+    };
+    std::thread ta(body, std::cref(a));
+    std::thread tb(body, std::cref(b));
+    ta.join();
+    tb.join();
+}
+
 int main()
 {
     std::string line;
+    Env env;
     while (std::getline(std::cin, line)) {
         const std::vector<std::string> f = fields(line);
         if (f.empty())
@@ -51,6 +180,32 @@ int main()
             a.join();
             seen = sl.getUnmatchedInlineSuppressions().size();
             std::cout << "done " << seen << std::endl;
+        } else if (f[0] == "methods") {
+            TimerResults tr;
+            std::string out;
+            for (const auto &p : suppressionMethods(sl, env))
+                out += " S:" + p.first;
+            for (const auto &p : timerMethods(tr))
+                out += " T:" + p.first;
+            std::cout << "methods" << out << std::endl;
+        } else if (f[0] == "pair" && f.size() == 4) {
+            TimerResults tr;
+            const std::map<std::string, Fn> ms = (f[1] == "S") ? suppressionMethods(sl, env) : timerMethods(tr);
+            const auto a = ms.find(f[2]);
+            const auto b = ms.find(f[3]);
+            if (a == ms.end() || b == ms.end()) {
+                std::cout << "unknown-method" << std::endl;
+                continue;
+            }
+            // some content to work on
+            for (int i = 0; i < 40; ++i) {
+                SuppressionList::Suppression s("id" + std::to_string(i), "f.c", (i % 7) + 1);
+                s.isInline = (i % 2) == 0;
+                (void)sl.addSuppression(std::move(s));
+                tr.addResults("t" + std::to_string(i % 13), std::chrono::milliseconds(1));
+            }
+            runPair(a->second, b->second, 300);
+            std::cout << "pair " << f[1] << ' ' << f[2] << ' ' << f[3] << " done" << std::endl;
         } else {
             std::cout << "unknown-op" << std::endl;
         }
